@@ -12,6 +12,7 @@ META = {
             'The model is tied to the code by running generated scripts under generated schedules on the real class (hooks before every atomic access of rw_lock_impl.h, '
             'futex served by the harness, critical sections bracketed by schedulable points with occupancy counters) and comparing step trace, try results, final word and status with the model evaluated in Coq; '
             'the judge also replays the occupancy from the implementation trace alone.',
+    'search': 'deterministic hand-over probe family (reader fetch_add while the writer bit is set, hand-over, reader back-out, third-thread probe; phase lengths swept) + weighted generator; when the lockstep trace differs from the model a search ladder re-runs the disagreeing programs and their neighbours (sections, permutations, try_lock / try_lock_shared / lock_shared / lock probes by a further thread) under thousands of decision lists and evaluates the property on the implementation alone (occupancy conflict, deadlock of a balanced script, word != 0 at quiescence); hits are confirmed by the Coq judge and reported as concrete VIOLATIONs; unknown hook sites are tolerated by the parser',
     'note': 'Trusted: Coq kernel; futex semantics (compare-and-block, wake-all; spurious returns only cause a re-load); harness/vsched.h; SC interleaving of the atomics (weak-memory reorderings not modelled; all accesses are acq_rel RMWs / acquire loads on one word); Linux variant of CompletionEventImpl. No axioms.',
 }
 
